@@ -61,7 +61,14 @@ def one_config(job):
             res["status"] = "encoder-exception:" + type(e).__name__
             res["detail"] = traceback.format_exc()[-800:]
             return res
-        data = common.serialise([seq])
+        try:
+            data = common.serialise([seq])
+        except Exception as e:
+            # the encoder accepted the configuration but its sequence cannot be serialised: the property fails
+            res["status"] = "rejected"
+            res["verdict"] = "serialise-exception:" + type(e).__name__
+            res["detail"] = "autofill_and_serialise_stream raised %s: %s" % (type(e).__name__, str(e)[:300])
+            return res
         res["stream_bytes"] = len(data)
         verdict, exc, out, state = common.validate(data)
         res["verdict"] = verdict
